@@ -500,6 +500,9 @@ var c05CyclicProbes = []struct{ name, src string }{
 	{"survive: freeze(self-referential array)", "a := [0]; a[0] = a; f := freeze(a); n := len(f)"},
 	{"survive: freeze(map cycle of two)", "a := {}; b := {p: a}; a.p = b; f := freeze(a); t := type_name(f.p.p)"},
 	{"survive: freeze(mixed cycle of three)", "a := {}; b := [a]; c := {q: b}; a.r = c; f := freeze(c); g := freeze(b)"},
+	{"survive: freeze(immutable array that contains itself)", "a := [0]; i := immutable(a); a[0] = i; f := freeze(i); n := len(f[0][0])"},
+	{"survive: freeze(cycle through an immutable wrapper)", "a := [1, 2]; w := immutable([a]); a[1] = w; f := freeze(w); g := freeze(a); t := is_immutable_array(f[0][1][0])"},
+	{"survive: freeze(cycle through an immutable map)", "m := {}; w := immutable({m: m}); m.w = w; f := freeze(w); g := freeze(m); t := is_immutable_map(f.m.w.m)"},
 	{"survive: cyclic value only stored and indexed", "a := [0]; a[0] = a; x := a[0][0][0]; n := len(a); m := {k: a}; t := is_array(m.k[0])"},
 	{"string(a)", "a := [0]; a[0] = a; s := string(a)"},
 	{"string(m)", "m := {}; m.self = m; s := string(m)"},
